@@ -29,6 +29,8 @@ var (
 	ErrBlockNotExist = errors.New("block not exist in this chain")
 	// ErrTxNotFound is returned when a transaction to query not exist in confirmed table
 	ErrTxNotFound = errors.New("transaction not found")
+	// ErrBlockAlreadyExist is returned when a block to confirm is already stored in the ledger
+	ErrBlockAlreadyExist = errors.New("block already exists in this chain")
 	// ErrTxDuplicated ...
 	ErrTxDuplicated = errors.New("transaction duplicated in different blocks")
 	// ErrRootBlockAlreadyExist is returned when two genesis block is checked in the process of confirming block
@@ -589,6 +591,14 @@ func (l *Ledger) ConfirmBlock(block *pb.InternalBlock, isRoot bool) ConfirmStatu
 		block.InTrunk = true
 		block.Height = 0 // 创世纪块是第0块
 	} else { //非创世块,需要判断是在主干还是分支
+		// a block that is already stored must not be confirmed again: saving it anew as a branch
+		// block would overwrite its in-trunk flag and next link
+		if exist, _ := l.blocksTable.Has(block.Blockid); exist {
+			l.xlog.Warn("block already exists in ledger", "blockid", utils.F(block.Blockid))
+			confirmStatus.Succ = false
+			confirmStatus.Error = ErrBlockAlreadyExist
+			return confirmStatus
+		}
 		preHash := block.PreHash
 		preBlock, findErr := l.fetchBlock(preHash)
 		if findErr != nil {
